@@ -65,7 +65,14 @@ def rate_ok(fmt, sr, got):
         import struct
         return got == (int(struct.unpack("<f", struct.pack("<f", float(sr)))[0]) if sr < 2**31 - 64 else 2**31 - 128)   # capped below 2^31 (KF-C10-ircam-rate repaired)
     if mj in (0x10, 0x11):     # HTK, SDS: sample period
-        return abs(got - sr) <= max(1, sr * sr // 10**7 + 1) if mj == 0x10 else abs(got - sr) <= max(1, sr * sr // 10**9 + 1)
+        # exactly the documented quantiser: the period u // sr (truncating) read back as u // period (truncating) --
+        # lean/SfModel/AbsWrite.lean `periodQuant`, lean/SfModel/Htk.lean / SdsFile.lean `quant`; a period the field cannot
+        # hold (0: rate above the unit; SDS: 21 bits, rates below 477 Hz) leaves the rate undefined: any positive rate
+        u, bits = (10 ** 7, 31) if mj == 0x10 else (10 ** 9, 21)
+        p = u // sr
+        if p == 0 or p >= 2 ** bits:
+            return got >= 1
+        return got == u // p
     if mj == 0x08:             # VOC: divisor
         return abs(got - sr) <= max(1, sr * sr // 10**6 + 1) if 4000 <= sr <= 200000 else True   # 1 MHz / (256 - divisor)
     if mj in (0x0F, 0x19):     # XI, WVE: fixed
